@@ -59,10 +59,12 @@ VARIABLES
   lazyTodo,  \* lazily referenced objects not yet stepped to
   walked,    \* nodes a tree walk has descended into
   lazyDone,  \* objects already stepped to through lazy links
+  shift,     \* TRUE: junk bytes precede the header (fragments about the file layout only); offsets are header-relative,
+             \* so nothing of the traversal may depend on it
   base,      \* number of budgeted descents below the current bottom frame (real recursion depth = base + Len(stack))
   deepest    \* deepest stack seen (history)
 
-vars == <<frag, refs, nums, phase, stack, guard, result, work, lazyTodo, lazyDone, walked, base, deepest>>
+vars == <<frag, refs, nums, shift, phase, stack, guard, result, work, lazyTodo, lazyDone, walked, base, deepest>>
 
 SlotNames(f) == {s.name : s \in f.slots}
 NumNames(f)  == {s.name : s \in f.nums}
@@ -99,6 +101,7 @@ Init ==
   /\ \/ refs \in [SlotNames(frag) -> frag.tgts] /\ nums = SaneNums(frag)
      \/ refs = DefaultRefs(frag) /\ nums \in AtMost(frag, NumK)
      \/ Cross /\ refs \in [SlotNames(frag) -> frag.tgts] /\ nums \in AtMost(frag, 1)
+  /\ shift \in (IF frag.layoutlevel THEN BOOLEAN ELSE {FALSE})
   /\ phase = "run"
   /\ stack = <<Frame(frag.entry, -1, "entry")>>
   /\ guard = {frag.entry}
@@ -120,7 +123,7 @@ Finish(r) ==
   /\ phase' = "done"
   /\ stack' = <<>>
   /\ guard' = {}
-  /\ UNCHANGED <<frag, refs, nums, work, lazyTodo, lazyDone, walked, base, deepest>>
+  /\ UNCHANGED <<frag, refs, nums, shift, work, lazyTodo, lazyDone, walked, base, deepest>>
 
 \* the numeric parameters of the fragment are consumed when the entry object is loaded
 NumStep ==
@@ -141,10 +144,10 @@ Follow ==
                              /\ guard' = (IF g THEN guard \cup {tgt} ELSE guard)
                              /\ work' = work + 1
                              /\ deepest' = IF Depth + 1 > deepest THEN Depth + 1 ELSE deepest
-                             /\ UNCHANGED <<frag, refs, nums, phase, result, lazyTodo, lazyDone, base>>
+                             /\ UNCHANGED <<frag, refs, nums, shift, phase, result, lazyTodo, lazyDone, base>>
                skip == /\ stack' = [stack EXCEPT ![Len(stack)].next = @ + 1]
                        /\ work' = work + 1
-                       /\ UNCHANGED <<frag, refs, nums, phase, result, guard, lazyDone, walked, base, deepest>>
+                       /\ UNCHANGED <<frag, refs, nums, shift, phase, result, guard, lazyDone, walked, base, deepest>>
            IN CASE s.mode = "lazy" -> skip /\ lazyTodo' = lazyTodo \cup ({tgt} \ lazyDone)
                 [] s.mode \in {"leaf", "budget"} -> skip /\ lazyTodo' = lazyTodo
                 [] s.mode = "guarded" ->
@@ -161,7 +164,7 @@ Return ==
   /\ Top.next > Len(OutSlots(frag, Top.obj))
   /\ stack' = Advance
   /\ guard' = IF Top.via = "guarded" THEN guard \ {Top.obj} ELSE guard
-  /\ UNCHANGED <<frag, refs, nums, phase, result, work, lazyTodo, lazyDone, walked, base, deepest>>
+  /\ UNCHANGED <<frag, refs, nums, shift, phase, result, work, lazyTodo, lazyDone, walked, base, deepest>>
 
 BottomDone == /\ phase = "run" /\ Len(stack) = 1
               /\ (work > 0 \/ NumResult(frag, nums) = "ok")
@@ -181,7 +184,7 @@ Descend ==
                   /\ base' = base + 1
                   /\ work' = work + 1
                   /\ deepest' = IF Depth + 1 > deepest THEN Depth + 1 ELSE deepest
-                  /\ UNCHANGED <<frag, refs, nums, phase, result, lazyTodo, lazyDone, walked>>
+                  /\ UNCHANGED <<frag, refs, nums, shift, phase, result, lazyTodo, lazyDone, walked>>
 
 \* ... or the descent ends here (the page was found, the base is a device space, the chain ends in a value)
 Stop ==
@@ -189,7 +192,7 @@ Stop ==
   /\ stack' = <<>> /\ guard' = {}
   /\ phase' = IF lazyTodo = {} THEN "done" ELSE "lazy"
   /\ result' = IF lazyTodo = {} THEN "ok" ELSE result
-  /\ UNCHANGED <<frag, refs, nums, work, lazyTodo, lazyDone, walked, base, deepest>>
+  /\ UNCHANGED <<frag, refs, nums, shift, work, lazyTodo, lazyDone, walked, base, deepest>>
 
 \* an explicit call steps to one lazily referenced object; callers step to each object at most once (visited set / step limit)
 LazyStep ==
@@ -203,7 +206,7 @@ LazyStep ==
        /\ work' = work + 1
        /\ walked' = {o}
        /\ base' = 0
-       /\ UNCHANGED <<frag, refs, nums, result, deepest>>
+       /\ UNCHANGED <<frag, refs, nums, shift, result, deepest>>
 
 Done == phase = "done" /\ UNCHANGED vars
 
